@@ -34,6 +34,8 @@ BRIDGED = {
     'mul_br': 'RealFloat.__mul__ (RealFloat operand) = rf_mul',
     'neg_br': 'RealFloat.__neg__ = rf_neg', 'abs_br': 'RealFloat.__abs__ = rf_abs', 'pos_br': 'RealFloat.__pos__ = rf_pos',
     'is_more_significant_br': 'RealFloat.is_more_significant', 'bit_br': 'RealFloat.bit',
+    'normalize_br': 'RealFloat.normalize = normalize', 'next_away_br': 'RealFloat._next_away = next_away',
+    'next_towards_br': 'RealFloat._next_towards = next_towards (c = 0 raises ValueError through the constructor)',
     'rf_init_sec': 'RealFloat.__init__(s, exp, c)', 'flags_init_spec': 'Flags.__init__',
 }
 
@@ -117,6 +119,11 @@ def _run(ck):
         ck.extra['py2v'] = {'translated': 0, 'error': str(ex)}
         return False
     nfun = len(tr.out)
+    from .common import coq_make
+    mk, mout = coq_make(['Py/PyRt.vo', 'Num/RealFloatProofs.vo', 'Num/CtxProofs.vo', 'Num/StochProofs.vo'], timeout=2400)
+    if not mk:
+        ck.broken.append('tie A: static theories the bridge depends on do not build: ' + mout[-400:])
+        return False
     ok, out = ck.dyn_theory('GenReals', text=text, timeout=600, count=False)
     if not ok:
         ck.extra['py2v'] = {'translated': nfun, 'error': 'generated model does not compile'}
@@ -129,6 +136,12 @@ def _run(ck):
     names = re.findall(r'Print Assumptions\s+([A-Za-z0-9_\']+)\s*\.', (COQ / 'dyn' / 'BridgeReals.v').read_text())
     if ok:
         ck.out.setdefault('audit', []).append((names, out))
+        # end-to-end theorems about the regenerated functions (bridge o property theorems of the hand-written model)
+        ok, out2 = ck.dyn_theory('GenTheorems', src=COQ / 'dyn' / 'GenTheorems.v', timeout=600, count=True)
+        if ok:
+            names2 = re.findall(r'Print Assumptions\s+([A-Za-z0-9_\']+)\s*\.', (COQ / 'dyn' / 'GenTheorems.v').read_text())
+            ck.out['audit'].append((names2, out2))
+            ck.extra['py2v_theorems'] = names2
     unm = sorted({m for t in tr.out.values() for m in re.findall(r'arms left unmodelled: (.*?) \*\)', t)})
     ck.extra['py2v'] = {
         'translated_functions': nfun,
